@@ -654,9 +654,28 @@ func queryTemplate(name, arg string) (string, Term, map[string]any) {
 		return "SELECT json_quote(id) AS id FROM $_keyspace WHERE xattrs->>'$._sync.rev' = $v ORDER BY id", C("QXattrRev", S(arg)), map[string]any{"v": arg}
 	case "QSync":
 		return "SELECT json_quote(id) AS id, xattrs->'$._sync' AS s FROM $_keyspace ORDER BY id", C("QSync"), nil
+	case "QSyncFirst":
+		return "SELECT xattrs->'$._sync' AS s, json_quote(id) AS id FROM $_keyspace ORDER BY id", C("QSyncFirst"), nil
 	default:
 		return "SELECT json_quote(id) AS id FROM $_keyspace ORDER BY id DESC LIMIT 2", C("QLast2"), nil
 	}
+}
+
+// a nil value (Val absent) is passed as nil; the model names what it stands for (Kv.nil_raw / Kv.nil_json)
+func valAny(v *string) any {
+	if v == nil {
+		return nil
+	}
+	return []byte(*v)
+}
+func valTerm(v *string, raw bool) Term {
+	if v == nil {
+		if raw {
+			return C("nil_raw")
+		}
+		return C("nil_json")
+	}
+	return S(*v)
 }
 
 // execute one KV op; returns the Coq op term and the Coq response term
@@ -748,31 +767,31 @@ func (k *kvRun) doKv(st Step) (opT Term, respT Term, err error) {
 			respT = C("RVal", S(string(v)), N(cs))
 		}
 	case "Add":
-		opT = C("KAdd", N(uint64(op.Exp)), S(*op.Val))
-		added, e := c.Add(key, op.Exp, []byte(*op.Val))
+		opT = C("KAdd", N(uint64(op.Exp)), valTerm(op.Val, false))
+		added, e := c.Add(key, op.Exp, valAny(op.Val))
 		if e != nil {
 			respT = rErr(e)
 		} else {
 			respT = C("RAdded", B(added))
 		}
 	case "AddRaw":
-		opT = C("KAddRaw", N(uint64(op.Exp)), S(*op.Val))
-		added, e := c.AddRaw(key, op.Exp, []byte(*op.Val))
+		opT = C("KAddRaw", N(uint64(op.Exp)), valTerm(op.Val, true))
+		added, e := c.AddRaw(key, op.Exp, valBytes(op.Val))
 		if e != nil {
 			respT = rErr(e)
 		} else {
 			respT = C("RAdded", B(added))
 		}
 	case "Set":
-		opT = C("KSet", N(uint64(op.Exp)), B(op.Preserve), S(*op.Val))
-		respT = okResp(c.Set(key, op.Exp, &sgbucket.UpsertOptions{PreserveExpiry: op.Preserve}, []byte(*op.Val)))
+		opT = C("KSet", N(uint64(op.Exp)), B(op.Preserve), valTerm(op.Val, false))
+		respT = okResp(c.Set(key, op.Exp, &sgbucket.UpsertOptions{PreserveExpiry: op.Preserve}, valAny(op.Val)))
 	case "SetRaw":
-		opT = C("KSetRaw", N(uint64(op.Exp)), B(op.Preserve), S(*op.Val))
+		opT = C("KSetRaw", N(uint64(op.Exp)), B(op.Preserve), valTerm(op.Val, true))
 		var uo *sgbucket.UpsertOptions
 		if op.Preserve {
 			uo = &sgbucket.UpsertOptions{PreserveExpiry: true}
 		}
-		respT = okResp(c.SetRaw(key, op.Exp, uo, []byte(*op.Val)))
+		respT = okResp(c.SetRaw(key, op.Exp, uo, valBytes(op.Val)))
 	case "WriteCas":
 		opT = C("KWriteCas", N(uint64(op.Exp)), N(cas), optStr(op.Val), B(op.Raw), B(op.Append), B(op.AddOnly))
 		var wo sgbucket.WriteOptions
